@@ -51,6 +51,23 @@ package basicauth
 //@   loop 3 invariant protected == (exists(i, 0, #i1 - 1, prot(i)) || exists(j, 0, #i2 - 1, M(#i1 - 1, j)))
 //@   loop 3 invariant isAuthenticated == (exists(i, 0, #i1 - 1, prot(i) && okCred(i)) || (exists(j, 0, #i2 - 1, M(#i1 - 1, j)) && okCred(#i1 - 1)))
 
+//@ unit basicauth_parse frames=on props=C03 filter=`basicauth\.basicAuthParse$`
+//@ // "exactly as configured": every protected and every excluded path of a rule is the text of a Casketfile token, as
+//@ // written (Path.Matches gives a trailing slash a meaning, so a normalised copy is a different rule).
+//@ use casketfile/contracts_verif.go:dispenser_api
+//@ use @verif/specs/stdlib.spec:casket_api
+//@ extern strings.Replace
+//@   pure
+//@ func passwordMatcher
+//@ define isTok(s string) bool = exists(t, 0, len(c.Dispenser.tokens), c.Dispenser.tokens[t].Text == s)
+//@ define ruleOK(r Rule) bool = forall(j, 0, len(r.Resources), isTok(r.Resources[j])) && forall(j, 0, len(r.Exclude), isTok(r.Exclude[j]))
+//@ func basicAuthParse
+//@   requires c != nil && c.Dispenser.cursor >= 0
+//@   modifies Dispenser.cursor, Dispenser.nesting, E:string, E:github.com/tmpim/casket/caskethttp/basicauth.Rule
+//@   ensures [paths_stored_as_written] forall(k, 0, len(result0), ruleOK(result0[k]))
+//@   loop 1 invariant c.Dispenser.cursor >= 0 && forall(k, 0, len(rules), ruleOK(rules[k]))
+//@   loop 2 invariant c.Dispenser.cursor >= 0 && forall(k, 0, len(rules), ruleOK(rules[k])) && ruleOK(rule)
+
 //@ unit setup_sweep props=C11 files=setup.go nilchecks=on nonnil_params=on dispenser_variants=on filter=`.`
 //@ // Safety sweep of this directive's setup code: index, slice, division, nil-map store, nil dereference, explicit panic,
 //@ // and termination of the loops driven by the token cursor. No functional contract; callees in the dispenser through their contracts.
